@@ -1,0 +1,12 @@
+//go:build verif
+
+package reconciler
+
+import "context"
+
+// VerifStep processes exactly one item of the workqueue (the body of the worker loop), so that
+// the retry logic can be driven without worker goroutines. Returns false when the queue
+// reports shutdown.
+func (w *Controller) VerifStep(ctx context.Context) bool {
+	return w.work(ctx)
+}
